@@ -1158,6 +1158,10 @@ pub fn mpc_kinds() -> Vec<(u32, K)> {
         (1, K::Clip),
         (3, K::Call),
         (2, K::Iterate),
+        // duplicated nodes and the same operation with swapped operands (dot(a,b) next to dot(b,a)):
+        // what the optimiser rounds of the compile pipeline may or may not merge
+        (1, K::Dup),
+        (2, K::DupSwap),
     ]
 }
 
